@@ -13,7 +13,8 @@
 (* blocks is NOT part of the observable: a framed writer whose input       *)
 (* buffer was doubled by an earlier unframed use (the capacity survives    *)
 (* Reset) flushes at the larger capacity; the stream is a valid xerial     *)
-(* stream all the same.  MaxBlockSeen records that effect.                 *)
+(* stream all the same (BlocksWithin32K below is deliberately not an       *)
+(* invariant; the engine reports that TLC finds it violated).              *)
 (*                                                                         *)
 (* When a use ends, its history variables are dropped and only the pools   *)
 (* (the residual states of released objects) remain, so the number of      *)
